@@ -95,6 +95,21 @@ Theorem C08_largest_first_complete :
 Proof. exact lf_complete_top. Qed.
 Print Assumptions C08_largest_first_complete.
 
+(* LargestFirstMultiAsset reports insufficiency only when all offered UTxOs (not yet in the builder) together do not
+   suffice in some quantity of the target: an asset, or the lovelace including the fee of the inputs added *)
+Theorem C08_lfma_complete :
+  forall (min_fee : imap -> result N) (fee_for_input : imap -> utxo -> result N)
+         (cs : list N) (offered : list utxo) (sc : scenario) (st0 st' : sel_state),
+    scenario_wf offered sc -> pre_distinct sc ->
+    initial_state min_fee sc = (st0, Done tt) -> coin (st_in st0) < coin (st_out st0) ->
+    add_inputs_from min_fee fee_for_input current LargestFirstMultiAsset cs offered sc = (st', Insufficient) ->
+    let eff := effective_offered current offered sc in
+    let before := imap_of_list (sc_pre sc) in
+    exists sel fee, required_fee min_fee fee_for_input before (added_utxos eff (st_trace st')) = Ok fee /\
+                    supply sel sc (before ++ eff) < demand sel sc fee.
+Proof. exact lfma_complete_top. Qed.
+Print Assumptions C08_lfma_complete.
+
 (* The defects of the code before its repairs: each single-fault variant of the model reports success (or panics)
    on a witness for which the specification fails (witnesses replayed on the real code: corpus/C08/w-*.case) *)
 Theorem C08_swap_bookkeeping_refuted :
